@@ -1,7 +1,519 @@
-"""Tier K: leaf kernels executed on files whose numbers (extents, component counts, offsets,
-header lengths) are symbolic; obligations are universally quantified over a fresh multi-index and
-discharged by z3 (nonlinear integer arithmetic with bounds)."""
+"""Tier K: leaf kernels executed on files whose numbers (extents, component counts, offsets, header
+lengths) are symbolic; obligations are universally quantified over a fresh multi-index and
+discharged by z3 (nonlinear integer arithmetic with bounds).  Each lemma reports the real functions
+it ran, its bounds, the queries discharged and solver time into the property's evidence."""
+import time
+
+import numpy as np
+import z3
+
+from harness import common
+from symx import core, patch, lv as klv
+from symx.lv import KFab, KFile, KFS, LV, Region, I, S
+
 LEMMAS = {}
+
+
+def lemma(name):
+    def deco(f):
+        LEMMAS[name] = f
+        return f
+    return deco
+
+
+class KResult:
+    def __init__(self, name, functions, bounds):
+        self.name = name
+        self.functions = functions
+        self.bounds = bounds
+        self.paths = 0
+        self.queries = 0
+        self.solver_s = 0.0
+        self.obligations = 0
+        self.discharged = 0
+        self.failed = []
+        self.inconclusive = []
+        self.flags = []
+        self.canary = None
+
+    def as_dict(self):
+        status = 'holds' if not self.failed and not self.inconclusive and not self.flags else ('violated' if self.failed else 'inconclusive')
+        return {'lemma': self.name, 'status': status, 'functions': self.functions, 'bounds': self.bounds, 'paths': self.paths,
+                'queries': self.queries, 'solver_seconds': round(self.solver_s, 3), 'obligations': self.obligations, 'discharged': self.discharged,
+                'failed': [f[:300] for f in self.failed[:3]], 'inconclusive': self.inconclusive[:3], 'flags': self.flags[:3], 'canary_fired': self.canary}
+
+
+def prove(ctx, kr, what, claim, timeout_ms=20000):
+    """claim must hold for all values on this path (negation unsat)."""
+    kr.obligations += 1
+    ctx.solver.push()
+    ctx.solver.set('timeout', timeout_ms)
+    t0 = time.perf_counter()
+    try:
+        r = ctx.check(z3.Not(claim))
+    finally:
+        kr.solver_s += time.perf_counter() - t0
+        kr.queries += 1
+        model = ctx.solver.model() if r == 'sat' else None
+        ctx.solver.pop()
+        ctx.solver.set('timeout', 10000)
+    if r == 'unsat':
+        kr.discharged += 1
+        return True
+    if r == 'sat':
+        kr.failed.append('%s; counterexample: %s' % (what, short_model(model)))
+        return False
+    kr.inconclusive.append(what)
+    return False
+
+
+def short_model(m, n=14):
+    if m is None:
+        return ''
+    items = []
+    for d in m.decls():
+        if d.arity() == 0 and not d.name().startswith('wlen'):
+            items.append('%s=%s' % (d.name(), m[d]))
+    return ', '.join(sorted(items)[:n])
+
+
+def fresh_index(ctx, prefix, shape):
+    idx = []
+    for d, n in enumerate(shape):
+        i = z3.Int('%s_%d' % (prefix, d))
+        ctx.assume(i >= 0)
+        ctx.assume(i < I(n))
+        idx.append(i)
+    return tuple(idx)
+
+
+def side_obligations(ctx, kr, view, what):
+    ok = True
+    for desc, claim in view.obligations:
+        ok = prove(ctx, kr, '%s: %s' % (what, desc), claim) and ok
+    return ok
+
+
+def shape_equal(ctx, kr, got, want, what):
+    if len(got) != len(want):
+        kr.obligations += 1
+        kr.failed.append('%s: rank %d, expected %d' % (what, len(got), len(want)))
+        return False
+    ok = True
+    for d, (g, w) in enumerate(zip(got, want)):
+        ok = prove(ctx, kr, '%s: extent of axis %d' % (what, d), I(g) == I(w)) and ok
+    return ok
+
+
+def kpatched(mods, kfs):
+    return patch.Patched(mods, kfs, stubs={'amr_kitchen.utils': {'int': klv.kint}})
+
+
+def run_lemma(kr, fn, max_paths=200):
+    results, exhaustive, stats = core.explore(fn, max_paths=max_paths, timeout_ms=20000)
+    kr.paths += stats['paths']
+    kr.queries += stats['queries']
+    kr.solver_s += stats['solver_s']
+    for ctx, r in results:
+        for f in ctx.flags:
+            if f not in kr.flags:
+                kr.flags.append(f)
+    if not exhaustive:
+        kr.inconclusive.append('path budget exhausted')
+    return results
+
+
+# ---------------------------------------------------------------------------------------------------------------
+# K-read: mp_read_box_single_field / _slice_field / _index_field
+
+@lemma('k_read')
+def k_read(rep):
+    mods = common.mods()
+    pc = mods['amr_kitchen.plotfile_cooker']
+    kr = KResult('K-read', ['plotfile_cooker.mp_read_box_single_field', 'plotfile_cooker.mp_read_box_slice_field', 'plotfile_cooker.mp_read_box_index_field',
+                            'utils.shape_from_header'],
+                 {'nx,ny,nz': '1..2^20 (cells <= 2^40)', 'nf': '1..4096 (single field), 1..5 (slice / list variants: slice.indices realises nf)',
+                  'offset': 'any >= 0', 'header length': '20..400', 'ndims': '2 and 3'})
+    for nd in (3, 2):
+        for variant in ('single', 'slice', 'list'):
+            for canary in (False, True):
+                def path(ctx, nd=nd, variant=variant, canary=canary):
+                    before = KFab('pre', nd, ctx, max_nf=8)
+                    fab = KFab('fab', nd, ctx, max_nf=4096 if variant == 'single' else 5)
+                    kf = KFile('f', [before, fab], start0=0)
+                    kfs = KFS()
+                    kfs.add('file', kf)
+                    if variant == 'single':
+                        c = core.integer('field')
+                        ctx.assume(c.t >= 0)
+                        ctx.assume(c.t < fab.nf.t)
+                        farg = c
+                        comps = None
+                    elif variant == 'slice':
+                        a = core.integer('sl_a')
+                        b = core.integer('sl_b')
+                        ctx.assume(a.t >= 0)
+                        ctx.assume(a.t <= 5)
+                        ctx.assume(b.t >= 0)
+                        ctx.assume(b.t <= 5)
+                        farg = slice(int(a), int(b), None)
+                    else:
+                        farg = None
+                    with kpatched(mods, kfs), common.quiet():
+                        if variant == 'single':
+                            out = pc.mp_read_box_single_field(('file', S(fab.start), farg))
+                            want_shape = tuple(fab.n)
+                        elif variant == 'slice':
+                            out = pc.mp_read_box_slice_field(('file', S(fab.start), farg))
+                        else:
+                            nfv = int(fab.nf)
+                            import itertools
+                            lst = [i for i in range(nfv)][::2] or [0]
+                            farg = np.array(lst)
+                            out = pc.mp_read_box_index_field(('file', S(fab.start), farg))
+                    if not isinstance(out, LV):
+                        kr.obligations += 1
+                        kr.failed.append('K-read %s %dD: returned %s' % (variant, nd, type(out).__name__))
+                        return
+                    what = 'K-read %s %dD' % (variant, nd)
+                    if variant == 'single':
+                        comps_of = lambda m: farg.t
+                        want_shape = tuple(fab.n)
+                    elif variant == 'slice':
+                        nfv = int(fab.nf)
+                        sel = list(range(nfv))[farg]
+                        if not sel:
+                            return
+                        want_shape = tuple(fab.n) + (len(sel),)
+                        comps_of = lambda m, sel=sel: pick(sel, m)
+                    else:
+                        sel = list(farg)
+                        want_shape = tuple(fab.n) + (len(sel),)
+                        comps_of = lambda m, sel=sel: pick(sel, m)
+                    side_obligations(ctx, kr, out, what)
+                    if not shape_equal(ctx, kr, out.shape, want_shape, what):
+                        return
+                    idx = fresh_index(ctx, 'q', want_shape)
+                    comp = comps_of(idx[-1]) if variant != 'single' else farg.t
+                    cell = idx[:nd]
+                    want = fab.elem_addr(cell, comp)
+                    if canary:
+                        want = want + 8
+                    n0 = len(kr.failed)
+                    ok = prove(ctx, kr, '%s: element address' % what, out.at(idx) == want)
+                    if canary:
+                        kr.canary = (kr.canary is not False) and (not ok)
+                        del kr.failed[n0:]
+                        kr.obligations -= 1
+                run_lemma(kr, path, max_paths=400)
+    rep.kernel_lemmas.append(kr.as_dict())
+    merge(rep, kr)
+
+
+def make_file(ctx, m, nd, max_nf=4096, name='f', same_nf=True, gaps=False):
+    fabs = [KFab('%s%d' % (name, k), nd, ctx, max_nf=max_nf) for k in range(m)]
+    if same_nf:
+        # one plotfile, one component count: the same symbol (and hence the same rendering) in every FAB header
+        for f in fabs[1:]:
+            f.nf = fabs[0].nf
+    kf = KFile(name, fabs)
+    return kf, fabs
+
+
+# ---------------------------------------------------------------------------------------------------------------
+# K-scan: mp_read_bfile_single_field / _slice_field / _index_field
+
+@lemma('k_scan')
+def k_scan(rep):
+    mods = common.mods()
+    pc = mods['amr_kitchen.plotfile_cooker']
+    kr = KResult('K-scan', ['plotfile_cooker.mp_read_bfile_single_field', 'plotfile_cooker.mp_read_bfile_slice_field', 'plotfile_cooker.mp_read_bfile_index_field'],
+                 {'FABs per file': '1..3, independent extents 1..2^20 (cells <= 2^40)', 'nf': '1..4096 (single), 1..4 (slice / list)', 'ndims': '2 and 3'})
+    for nd in (3, 2):
+        for m in (1, 2, 3):
+            for variant in ('single', 'slice', 'list'):
+                if variant != 'single' and (m == 3 or nd == 2 and m == 2):
+                    continue
+                for canary in ((False, True) if (m == 2 and variant == 'single') else (False,)):
+                    def path(ctx, nd=nd, m=m, variant=variant, canary=canary):
+                        kf, fabs = make_file(ctx, m, nd, max_nf=4096 if variant == 'single' else 4)
+                        kfs = KFS()
+                        kfs.add('file', kf)
+                        nf = fabs[0].nf
+                        if variant == 'single':
+                            c = core.integer('field')
+                            ctx.assume(c.t >= 0)
+                            ctx.assume(c.t < nf.t)
+                            farg = c
+                        elif variant == 'slice':
+                            nfv = int(nf)
+                            a = core.integer('sl_a')
+                            ctx.assume(a.t >= 0)
+                            ctx.assume(a.t <= nfv)
+                            farg = slice(int(a), None, None)
+                        else:
+                            nfv = int(nf)
+                            farg = np.array(list(range(nfv))[::-1][::2])
+                        with kpatched(mods, kfs), common.quiet():
+                            fun = {'single': pc.mp_read_bfile_single_field, 'slice': pc.mp_read_bfile_slice_field, 'list': pc.mp_read_bfile_index_field}[variant]
+                            out = fun(('file', farg))
+                        what = 'K-scan %s %dD m=%d' % (variant, nd, m)
+                        kr.obligations += 1
+                        if not isinstance(out, list) or len(out) != m or not all(isinstance(o, LV) for o in out):
+                            kr.failed.append('%s: yielded %s arrays for %d FABs' % (what, len(out) if isinstance(out, list) else type(out).__name__, m))
+                            return
+                        kr.discharged += 1
+                        for k, (o, fab) in enumerate(zip(out, fabs)):
+                            if variant == 'single':
+                                want_shape = tuple(fab.n)
+                                comp_of = lambda q: farg.t
+                            else:
+                                sel = list(range(int(nf)))[farg] if variant == 'slice' else list(farg)
+                                if not sel:
+                                    continue
+                                want_shape = tuple(fab.n) + (len(sel),)
+                                comp_of = lambda q, sel=sel: pick(sel, q)
+                            side_obligations(ctx, kr, o, what)
+                            if not shape_equal(ctx, kr, o.shape, want_shape, '%s FAB %d' % (what, k)):
+                                return
+                            idx = fresh_index(ctx, 'q%d' % k, want_shape)
+                            want = fab.elem_addr(idx[:nd], comp_of(idx[-1]))
+                            if canary and k == 1:
+                                want = want + 8
+                            n0 = len(kr.failed)
+                            ok = prove(ctx, kr, '%s FAB %d: element address' % (what, k), o.at(idx) == want)
+                            if canary and k == 1:
+                                kr.canary = (kr.canary is not False) and (not ok)
+                                del kr.failed[n0:]
+                                kr.obligations -= 1
+                    run_lemma(kr, path, max_paths=400)
+    rep.kernel_lemmas.append(kr.as_dict())
+    merge(rep, kr)
+
+
+# ---------------------------------------------------------------------------------------------------------------
+# K-taste: mp_fun_headers / mp_fun_shape on well-formed and damaged files
+
+def taste_args(fabs, order=None):
+    order = order or list(range(len(fabs)))
+    from symx import npfacade
+    indices = []
+    for k in order:
+        f = fabs[k]
+        indices.append([npfacade.objarr(list(f.lo)), npfacade.objarr(list(f.hi))])
+    return {'bfile': 'file', 'offsets': [S(fabs[k].start) for k in order], 'indices': indices, 'box_ids': np.array(order), 'lv': 0, 'nfields': fabs[0].nf}
+
+
+@lemma('k_taste_good')
+def k_taste_good(rep):
+    mods = common.mods()
+    tm = mods['amr_kitchen.taste.taste']
+    kr = KResult('K-taste-good', ['taste.mp_fun_headers', 'taste.mp_fun_shape', 'utils.indexes_and_shape_from_header', 'utils.header_from_indices'],
+                 {'FABs per file': '1..3, independent extents 1..2^20', 'nf': '1..4096', 'box_ids': 'every order for mp_fun_headers, offset order for mp_fun_shape', 'ndims': '2 and 3'})
+    import itertools
+    for nd in (3, 2):
+        for m in (1, 2, 3):
+            for order in itertools.permutations(range(m)):
+                def path(ctx, nd=nd, m=m, order=order):
+                    kf, fabs = make_file(ctx, m, nd)
+                    kfs = KFS()
+                    kfs.add('file', kf)
+                    with kpatched(mods, kfs), common.quiet():
+                        r1 = tm.mp_fun_headers(taste_args(fabs, list(order)))
+                        r2 = tm.mp_fun_shape(taste_args(fabs)) if list(order) == sorted(order) else None
+                    kr.obligations += 1
+                    if r1 is None and r2 is None:
+                        kr.discharged += 1
+                    else:
+                        kr.failed.append('K-taste-good %dD m=%d order %s: a well-formed file is reported bad on a feasible path: %s' % (nd, m, order, str(r1 or r2)[:120]))
+                run_lemma(kr, path)
+    rep.kernel_lemmas.append(kr.as_dict())
+    merge(rep, kr)
+
+
+@lemma('k_taste_bad')
+def k_taste_bad(rep):
+    mods = common.mods()
+    tm = mods['amr_kitchen.taste.taste']
+    kr = KResult('K-taste-bad', ['taste.mp_fun_headers', 'taste.mp_fun_shape'],
+                 {'FABs per file': '1..3', 'damage': 'symbolic: g >= 1 bytes inserted before FAB k / after the last FAB; file cut by c >= 1 bytes; one header number differing by a symbolic '
+                  'non-zero amount from the level header; recorded offset shifted into the payload', 'ndims': '3'})
+    nd = 3
+    cases = []
+    for m in (1, 2, 3):
+        for k in range(m + 1):
+            cases.append(('insert', m, k))
+        cases.append(('cut', m, None))
+        for k in range(m):
+            for which in ('lo', 'hi', 'nf'):
+                cases.append(('number-' + which, m, k))
+            cases.append(('offset', m, k))
+    for kind, m, k in cases:
+        def path(ctx, kind=kind, m=m, k=k):
+            fabs = [KFab('f%d' % j, nd, ctx) for j in range(m)]
+            for f in fabs[1:]:
+                f.nf = fabs[0].nf
+            pos = z3.IntVal(0)
+            g = core.integer('damage')
+            ctx.assume(g.t >= 1)
+            ctx.assume(g.t <= 2 ** 30)
+            for j, f in enumerate(fabs):
+                if kind == 'insert' and j == k:
+                    pos = pos + g.t
+                f.start = pos
+                pos = f.end()
+            kf = KFile.__new__(KFile)
+            kf.name, kf.fabs, kf.writes, kf.wpos = 'f', fabs, [], z3.IntVal(0)
+            kf.size = pos
+            if kind == 'insert' and k == m:
+                kf.size = pos + g.t
+            if kind == 'cut':
+                ctx.assume(g.t < fabs[-1].payload_bytes())
+                kf.size = pos - g.t
+            kfs = KFS()
+            kfs.add('file', kf)
+            args = taste_args(fabs)
+            if kind.startswith('number'):
+                which = kind.split('-')[1]
+                from symx import npfacade
+                eps = core.integer('eps')
+                ctx.assume(eps.t != 0)
+                ctx.assume(eps.t >= -4)
+                ctx.assume(eps.t <= 4)
+                if which == 'nf':
+                    # the level header's field count differs from the FAB headers'
+                    args['nfields'] = S(fabs[0].nf.t + eps.t)
+                    ctx.assume(fabs[0].nf.t + eps.t >= 1)
+                else:
+                    pair = args['indices'][k]
+                    arr = pair[0] if which == 'lo' else pair[1]
+                    arr[0] = S(I(arr[0]) + eps.t)
+            if kind == 'offset':
+                # the recorded offset points strictly inside the payload of FAB k
+                ctx.assume(g.t < fabs[k].payload_bytes())
+                args['offsets'][k] = S(fabs[k].start + fabs[k].hlen.t + g.t)
+            with kpatched(mods, kfs), common.quiet():
+                try:
+                    r1 = tm.mp_fun_headers(args)
+                    r2 = tm.mp_fun_shape(args) if r1 is None else None
+                    raised = None
+                except Exception as e:
+                    raised = e
+                    r1 = r2 = None
+            kr.obligations += 1
+            # a worker exception reaches the parent (TastesBad in the caller); a returned message too
+            if r1 is not None or r2 is not None or raised is not None:
+                kr.discharged += 1
+            else:
+                kr.failed.append('K-taste-bad %s m=%d k=%s: the damaged file passes both workers; %s' % (kind, m, k, short_model(ctx.model())))
+        run_lemma(kr, path)
+    rep.kernel_lemmas.append(kr.as_dict())
+    merge(rep, kr)
+
+
+# ---------------------------------------------------------------------------------------------------------------
+# K-strain: parallel_strain_2d / parallel_strain_3d
+
+@lemma('k_strain')
+def k_strain(rep):
+    mods = common.mods()
+    cm = mods['amr_kitchen.colander.colander']
+    kr = KResult('K-strain', ['colander.parallel_strain_3d', 'colander.parallel_strain_2d'],
+                 {'FABs per file': '1..3 handed over in every order, independent extents 1..2^20', 'nf': '1..4096', 'kept components': '1..3 symbolic indices', 'ndims': '2 and 3'})
+    import itertools
+    from symx import npfacade
+    for nd in (3, 2):
+        for m in (1, 2, 3):
+            for order in itertools.permutations(range(m)):
+                if m == 3 and order not in ((0, 1, 2), (2, 0, 1), (1, 2, 0)):
+                    continue
+                for nk in ((1, 2, 3) if m == 1 else (2,)):
+                    for canary in ((False, True) if (m == 2 and order == (1, 0)) else (False,)):
+                        def path(ctx, nd=nd, m=m, order=order, nk=nk, canary=canary):
+                            kf, fabs = make_file(ctx, m, nd)
+                            kfs = KFS()
+                            kfs.add('in', kf)
+                            nf = fabs[0].nf
+                            kept = []
+                            for q in range(nk):
+                                c = core.integer('kept%d' % q)
+                                ctx.assume(c.t >= 0)
+                                ctx.assume(c.t < nf.t)
+                                kept.append(c)
+                            args = {'bfile_r': 'in', 'bfile_w': 'out', 'box_indexes': [[npfacade.objarr(list(fabs[k].lo)), npfacade.objarr(list(fabs[k].hi))] for k in order],
+                                    'cell_indexes': list(order), 'offsets_r': [S(fabs[k].start) for k in order], 'nvars': nf, 'kept_fields': kept, 'ncells': m}
+                            with kpatched(mods, kfs), common.quiet():
+                                offs = (cm.parallel_strain_3d if nd == 3 else cm.parallel_strain_2d)(args)
+                            what = 'K-strain %dD m=%d order %s kept %d' % (nd, m, order, nk)
+                            out = kfs.files.get('out')
+                            kr.obligations += 1
+                            if out is None or len(out.writes) != 2 * m or not isinstance(offs, list) or len(offs) != m:
+                                kr.failed.append('%s: %s writes, %s offsets' % (what, len(out.writes) if out else None, len(offs) if isinstance(offs, list) else offs))
+                                return
+                            kr.discharged += 1
+                            for j, k in enumerate(order):
+                                hdr, reg = out.writes[2 * j], out.writes[2 * j + 1]
+                                if hdr[0] != 'hdr' or reg[0] != 'region' or len(reg[2].parts) != 1:
+                                    kr.obligations += 1
+                                    kr.failed.append('%s: box %d is not written as header + one region' % (what, j))
+                                    return
+                                prove(ctx, kr, '%s: returned offset %d is where the header was written' % (what, j), I(offs[j]) == hdr[1])
+                                # the rewritten header names the same index range and the kept count
+                                want_h = fabs[k].header(nf=nk)
+                                kr.obligations += 1
+                                if hdr[2] == want_h:
+                                    kr.discharged += 1
+                                else:
+                                    kr.failed.append('%s: header of box %d is %r, expected %r' % (what, j, hdr[2][-60:], want_h[-60:]))
+                                view = reg[2].parts[0]
+                                side_obligations(ctx, kr, view, what)
+                                want_shape = tuple(fabs[k].n) + (nk,)
+                                if not shape_equal(ctx, kr, view.shape, want_shape, '%s box %d' % (what, j)):
+                                    return
+                                idx = fresh_index(ctx, 'q%d' % j, want_shape)
+                                want = fabs[k].elem_addr(idx[:nd], pick_terms([c.t for c in kept], idx[-1]))
+                                if canary and j == 1:
+                                    want = want + 8
+                                n0 = len(kr.failed)
+                                ok = prove(ctx, kr, '%s box %d: element address' % (what, j), view.at(idx) == want)
+                                if canary and j == 1:
+                                    kr.canary = (kr.canary is not False) and (not ok)
+                                    del kr.failed[n0:]
+                                    kr.obligations -= 1
+                        run_lemma(kr, path)
+    rep.kernel_lemmas.append(kr.as_dict())
+    merge(rep, kr)
+
+
+def pick_terms(terms, m):
+    t = terms[-1]
+    for q in range(len(terms) - 2, -1, -1):
+        t = z3.If(m == q, terms[q], t)
+    return t
+
+
+def pick(sel, m):
+    t = z3.IntVal(sel[-1])
+    for q in range(len(sel) - 2, -1, -1):
+        t = z3.If(m == q, z3.IntVal(sel[q]), t)
+    return t
+
+
+def merge(rep, kr):
+    rep.paths += kr.paths
+    rep.queries += kr.queries
+    rep.solver_s += kr.solver_s
+    rep.obl['total'] += kr.obligations
+    rep.obl['discharged'] += kr.discharged
+    rep.obl['inconclusive'] += len(kr.inconclusive)
+    rep.functions.update('amr_kitchen/' + f.replace('.', '.py:', 1) if False else f for f in kr.functions)
+    if kr.canary is not None:
+        rep.canaries += 1
+        rep.canaries_fired += 1 if kr.canary else 0
+    for f in kr.failed:
+        rep.violations.append({'signature': '%s/%s' % (rep.pid, kr.name), 'what': f[:400], 'replay': None, 'klemma': True})
+    for f in kr.flags:
+        rep.flag_reasons[f[:80]] = rep.flag_reasons.get(f[:80], 0) + 1
 
 
 def run_into(rep, names):
@@ -10,4 +522,14 @@ def run_into(rep, names):
         if f is None:
             rep.kernel_lemmas.append({'lemma': n, 'status': 'not built'})
             continue
+        t0 = time.time()
         f(rep)
+        rep.kernel_lemmas[-1]['wall_s'] = round(time.time() - t0, 2)
+
+
+if __name__ == '__main__':
+    import sys
+    rep = common.Report('K')
+    run_into(rep, sys.argv[1:] or sorted(LEMMAS))
+    import json
+    print(json.dumps(rep.kernel_lemmas, indent=1))
